@@ -676,6 +676,9 @@ def m_fn_call(I, m, argv, fr, dest, c):
             return I.call_fn(name, args)
     if callable(f):
         return f(I, *args)
+    if isinstance(f, Agg) and f.kind == "closure":
+        from .models2 import call_closure
+        return call_closure(I, argv[0], args)
     raise Inconclusive("Fn::call on %r" % (f,))
 
 
@@ -764,7 +767,7 @@ def build_models():
         (R(r"^Crc32::new$"), m_crc_new),
         (R(r"^<Vec<.*> as Deref(?:Mut)?>::deref(?:_mut)?$|^<String as Deref>::deref$"), m_deref_vec),
         (R(r"^String::as_bytes$|^core::str::<impl str>::as_bytes$"), m_string_as_bytes),
-        (R(r"^<.* as Fn<\(.*\)>>::call$"), m_fn_call),
+        (R(r"^<.* as Fn(?:Mut|Once)?<\(.*\)>>::call(?:_mut|_once)?$"), m_fn_call),
     ]
     from .models2 import container_models
     return M + container_models()
